@@ -92,7 +92,17 @@ impl Counters {
 fn bump(c: &AtomicUsize) {
     c.fetch_add(1, AO::Relaxed);
 }
-thread_local! { pub static THREAD_TAG: std::cell::Cell<u32> = std::cell::Cell::new(0); }
+thread_local! { static THREAD_TAG: std::cell::Cell<u32> = std::cell::Cell::new(u32::MAX); }
+static NEXT_TAG: std::sync::atomic::AtomicU32 = std::sync::atomic::AtomicU32::new(0);
+/// a small process-unique id of the calling thread
+pub fn thread_tag() -> u32 {
+    THREAD_TAG.with(|t| {
+        if t.get() == u32::MAX {
+            t.set(NEXT_TAG.fetch_add(1, AO::SeqCst));
+        }
+        t.get()
+    })
+}
 impl<S> Log<S> {
     pub fn new(on: bool) -> Arc<Self> {
         Arc::new(Log { on, evs: Mutex::new(vec![]), c: Counters::default() })
@@ -100,7 +110,7 @@ impl<S> Log<S> {
     #[inline]
     pub fn push(&self, f: impl FnOnce() -> Ev<S>) {
         if self.on {
-            let tag = THREAD_TAG.with(|t| t.get());
+            let tag = thread_tag();
             self.evs.lock().push((tag, f()));
         }
     }
